@@ -749,12 +749,53 @@ func checkC05(P *Prog, r *Result) {
 	if ca.addIssue != nil {
 		allowed[ca.addIssue] = true
 	}
+	// helpers of the pipelines (`armCatch(ctx, catch)`): an unexported function called only from a pipeline's
+	// entry block (or from such a helper's), never taken as a value; the store in it is judged with the helper's
+	// parameters bound to the pipeline's arguments
+	helperEnv := map[*ssa.Function]map[ssa.Value]ssa.Value{}
+	for _, pl := range R.Pipelines {
+		for _, u := range P.nodeUnits(pl) {
+			if !u.helper || u.parent == nil {
+				continue
+			}
+			site, ok := u.site.(ssa.Instruction)
+			if !ok || site.Block() != site.Parent().Blocks[0] {
+				continue
+			}
+			if _, isCall := site.(*ssa.Call); !isCall {
+				continue
+			}
+			if u.parent.fn != pl && helperEnv[u.parent.fn] == nil {
+				continue
+			}
+			if isExportedAPI(u.fn) {
+				continue
+			}
+			// every call site of the helper is one of these
+			onlyHere := true
+			for _, caller := range P.Funcs {
+				eachInstr(caller, func(_ *ssa.BasicBlock, _ int, in ssa.Instruction) {
+					if ci := callOf(in); ci != nil && ci.static == u.fn && !allowed[caller] && helperEnv[caller] == nil {
+						onlyHere = false
+					}
+				})
+			}
+			if onlyHere {
+				helperEnv[u.fn] = u.env
+			}
+		}
+	}
 	nW := 0
 	for _, fn := range P.Funcs {
 		eachInstr(fn, func(b *ssa.BasicBlock, _ int, in ssa.Instruction) {
 			st, ok := in.(*ssa.Store)
 			if !ok {
 				return
+			}
+			if env, isHelper := helperEnv[fn]; isHelper {
+				saved := substEnv
+				substEnv = env
+				defer func() { substEnv = saved }()
 			}
 			_, f := fieldVar(st.Addr)
 			if f == nil {
@@ -775,7 +816,7 @@ func checkC05(P *Prog, r *Result) {
 				return
 			}
 			c := fmt.Sprintf("%s#%s", fname(fn), flag.Name())
-			if !allowed[fn] {
+			if !allowed[fn] && helperEnv[fn] == nil {
 				r.bad("C05/flag-writers", c, P.ipos(in), "catch flag set outside the primitive pipelines / AddIssue")
 				return
 			}
@@ -860,6 +901,7 @@ func (P *Prog) checkSwallow(r *Result, fn *ssa.Function) {
 	// atoms CANCATCH / EXIT, events DEST=catch (a store of *catch into the node's destination), ISSUE, CALL-TEST.
 	var problems []string
 	stores := map[ssa.Instruction]bool{}
+	catching := map[ssa.Instruction]bool{} // the CanCatch tests whose true side was taken (the catch store may be one shared helper)
 	exitCaught := false
 	for _, p := range paths {
 		lastCan := "" // value of the most recent CanCatch test
@@ -868,6 +910,7 @@ func (P *Prog) checkSwallow(r *Result, fn *ssa.Function) {
 			case it.kind == "CANCATCH":
 				lastCan = it.val
 				if it.val == "T" {
+					catching[it.in] = true
 					// the catching side must store the catch value before anything else observable happens
 					stored := false
 					for _, nx := range p.items[i+1:] {
@@ -916,8 +959,8 @@ func (P *Prog) checkSwallow(r *Result, fn *ssa.Function) {
 	if !exitCaught {
 		problems = append(problems, "no `if ctx.Exit { if ctx.CanCatch { *dest = *catch } }` after running a test: a failed test of a catching node leaves the failing value in the destination")
 	}
-	if len(stores) < 2 {
-		problems = append(problems, fmt.Sprintf("only %d catch stores found (required-failure, [coerce-failure,] test-failure expected)", len(stores)))
+	if len(catching) < 2 || len(stores) == 0 {
+		problems = append(problems, fmt.Sprintf("only %d catching branch(es) with a catch store found (required-failure, [coerce-failure,] test-failure expected)", len(catching)))
 	}
 	if len(problems) > 0 {
 		r.bad("C05/swallow-implies-catch-store", fname(fn), P.pos(fn.Pos()), strings.Join(uniqSorted(problems), "; "))
